@@ -19,7 +19,7 @@ def describe(tier):
                 % (hi, '' if tier == 'quick' else ' and 1000, 4095, 4096, 4097, 65535, 65536'),
         'bounds': 'message lengths 0..%d exhaustive' % hi,
         'assumptions': ['wrong-key rejection is decided for DRBG keys only (chance equality 2^-128)'],
-        'must_be_nonzero': ['roundtrip', 'block-multiple-message', 'empty-message', 'declared-mismatch-refused', 'wrong-key-length-refused', 'long-runs'],
+        'must_be_nonzero': ['roundtrip', 'block-multiple-message', 'empty-message', 'declared-mismatch-refused', 'wrong-key-length-refused', 'long-runs', 'wrong-key-runs'],
     }
 
 
@@ -30,8 +30,10 @@ def units(tier, seed):
         for ki in range(3):
             for lo in range(0, hi + 1, 27):
                 us.append(('enc/%d/%d/%d' % (kl, ki, lo), {'kind': 'enc', 'kl': kl, 'ki': ki, 'lens': list(range(lo, min(lo + 27, hi + 1)))}))
+        # beyond the dense range: around 256 (message and ciphertext lengths), around 4 KiB
+        us.append(('enc-mid/%d' % kl, {'kind': 'enc', 'kl': kl, 'ki': 0, 'lens': [223, 224, 225, 239, 240, 241, 255, 256, 257, 272, 300, 1000, 4095, 4096, 4097]}))
         if tier != 'quick':
-            us.append(('enc-long/%d' % kl, {'kind': 'enc', 'kl': kl, 'ki': 0, 'lens': [1000, 4095, 4096, 4097, 65535, 65536]}))
+            us.append(('enc-long/%d' % kl, {'kind': 'enc', 'kl': kl, 'ki': 0, 'lens': [8191, 8192, 8193, 65535, 65536, 65537]}))
         us.append(('contracts/%d' % kl, {'kind': 'contracts', 'kl': kl}))
     for kl in (16, 24, 32):
         us.append(('many/%d' % kl, {'kind': 'many', 'kl': kl, 'count': 600 if tier == 'quick' else 5000}))
@@ -237,8 +239,28 @@ def run_many(r, seed, kl, count):
         r['states'] += 1
         r['nontrivial'] += 1
         r.count('long-runs')
+    # a long run of WRONG keys against one ciphertext: none of them may hand back the original message (a padding check that
+    # lets one byte value through does so about once in 256 attempts - for the empty message that is the original)
+    nwrong = 3000 if count <= 600 else 20000
+    for m in (b'', b'\x00', g.randbytes(16), g.randbytes(5)):
+        c = a.Encrypt(key, m)
+        hits = 0
+        for i in range(nwrong):
+            k2 = g.randbytes(kl)
+            r['transitions'] += 1
+            try:
+                if k2 != key and a.Decrypt(k2, c) == m:
+                    hits += 1
+            except Exception:
+                pass
+        r['evaluations'] += 1
+        r['states'] += 1
+        r.count('wrong-key-runs')
+        if hits:
+            r.v(PROPERTY, 'AES-CBC', 'wrong-key', 'returns-message-in-long-run', {'key_length': kl, 'message_length': len(m), 'wrong_keys': nwrong},
+                'no wrong key returns the original message', '%d of %d did' % (hits, nwrong))
     r.outcome('many-ok')
-    r.sample({'key_length': kl, 'encryptions_of_one_message_by_one_object': count})
+    r.sample({'key_length': kl, 'encryptions_of_one_message_by_one_object': count, 'wrong_keys_per_ciphertext': nwrong})
 
 
 def run_unit(p, tier, seed):
